@@ -707,8 +707,8 @@ class C15(Check):
         "strict conversion options = Options(no_explicit_cast=True, no_data_loss=True) passed to type_transform; "
         "Schema classes built by the parser keep their own options inside",
     ]
-    budget = {"quick": 700, "thorough": 12000}
-    search_budget = {"quick": 1500, "thorough": 8000}
+    budget = {"quick": 4000, "thorough": 60000}
+    search_budget = {"quick": 3000, "thorough": 15000}
 
     # ---- cases ---------------------------------------------------------------------------------
     def cases(self, tier, rng, n):
